@@ -66,10 +66,14 @@ pub fn profile_for(prop: &str) -> Profile {
     }
 }
 
-/// (quick, thorough) number of runs
+/// (quick, thorough) number of runs. Quick stays within roughly half a minute on 16 cores,
+/// thorough within roughly ten minutes.
 pub fn budget(prop: &str) -> (u64, u64) {
     match prop {
-        _ => (3000, 60000),
+        "C13" | "C15" => (4000, 120_000),
+        "C20" | "C14" | "C06" | "C07" => (6000, 200_000),
+        "C18" => (10_000, 400_000),
+        _ => (6000, 250_000),
     }
 }
 
